@@ -46,6 +46,8 @@ structure Oracle where
   callBegan : List (String × Nat) := []      -- api id ↦ step at which its thread left `begin`
   lastStartRet : List (String × Nat) := []   -- name ↦ step of the last successful start/restart
   sdHandled : List String := []              -- the running shutdown has finished stopping these names
+  exitAfterSd : List String := []            -- running at shutdown begin; command exited by itself after the request
+  sdSeq : List (String × Nat) := []          -- instance numbers at shutdown begin
   triggers : List (String × Int × Bool) := []   -- (process, code, genuine)
   calls : List (String × List String) := []     -- api id ↦ op words
   prevCmd : List String := []
@@ -181,7 +183,11 @@ def onObs (o : Oracle) (op : List String) (cmdAfter : List String)
     -- a command launched while a shutdown is in progress will never be signalled by it
     let during := if o.shutdownBegun && o.sdHandled.contains x then
         [s!"C03:launch-during-shutdown {x}", s!"C02:launch-during-shutdown {x}"] else []
-    let afterStop := afterStop ++ during
+    -- C02: a process that was running when the shutdown was requested and whose command exited by
+    -- itself after that request is not relaunched
+    let reqd := if lookupD o.launchesInst x 0 > 0 && o.exitAfterSd.contains x then
+        [s!"C02:relaunch-after-shutdown-request {x}", s!"C03:relaunch-after-shutdown-request {x}"] else []
+    let afterStop := afterStop ++ during ++ reqd
     let isRe := lookupD o.launchesInst x 0 > 0
     let code := lookupD o.lastCode x 0
     let pol := if !isRe then [] else
@@ -207,12 +213,13 @@ def onObs (o : Oracle) (op : List String) (cmdAfter : List String)
     let o := if dies then { o with lastCode := setKV o.lastCode x code, natural := delS o.natural x } else o
     let o := { o with sdSignalled := addS o.sdSignalled x }
     (o, c12)
-  | ["sdorder", l] => ({ o with runAtShutdown := csv l, stopBegun := (csv l).foldl addS o.stopBegun, shutdownBegun := true }, [])
+  | ["sdorder", l] => ({ o with runAtShutdown := csv l, stopBegun := (csv l).foldl addS o.stopBegun, shutdownBegun := true,
+                                sdSeq := o.seenSeq, exitAfterSd := [] }, [])
   | ["sdorder"] => ({ o with runAtShutdown := [], shutdownBegun := true }, [])
   | ["sdreturned"] =>
     let alive := if cmdAfter.isEmpty then [] else [s!"C03:alive-after-shutdown {",".intercalate cmdAfter}"]
     let running := st.filterMap fun (n, (s, _)) => if isRunningSt s then some s!"C03:reported-running-after-shutdown {n} {s}" else none
-    ({ o with shutdownReturned := true, shutdownBegun := false, sdHandled := [], stopReq := o.decls.map (·.name),
+    ({ o with shutdownReturned := true, shutdownBegun := false, sdHandled := [], exitAfterSd := [], stopReq := o.decls.map (·.name),
               everStopped := o.decls.foldl (fun l d => addS l d.name) o.everStopped }, alive ++ running)
   | ["projexit", c] =>
     let x := actor op
@@ -313,14 +320,18 @@ def feed (o : Oracle) (op : List String) (impl : String) : Oracle × String :=
         if n > lookupD o.seenSeq x 0 then
           { o with seenSeq := setKV o.seenSeq x n, fresh := addS o.fresh key,
 
-                   found := o.found.filter (·.1 ≠ x), launchesInst := setKV o.launchesInst x 0 }
+                   found := o.found.filter (·.1 ≠ x), launchesInst := setKV o.launchesInst x 0,
+                   exitAfterSd := delS o.exitAfterSd x }
         else o
       | _ => o
     | _ => o) o
   -- the external event / request of this step
   let o := match op with
     | ["s", "exit", x, c] =>
-      if o.prevCmd.contains x then { o with lastCode := setKV o.lastCode x (c.toInt?.getD 0), natural := addS o.natural x } else o
+      if o.prevCmd.contains x then
+        { o with lastCode := setKV o.lastCode x (c.toInt?.getD 0), natural := addS o.natural x,
+                 exitAfterSd := if o.shutdownBegun && o.runAtShutdown.contains x && lookupD o.sdSeq x 0 == lookupD o.seenSeq x 0 then addS o.exitAfterSd x else o.exitAfterSd }
+      else o
     | ["s", "probe", x, "ok"] =>
       if o.prevCmd.contains x then { o with probeOkEver := addS o.probeOkEver x, readySince := addS o.readySince x } else o
     | "s" :: "call" :: id :: rest => { o with calls := setKV o.calls id rest }
